@@ -1,6 +1,10 @@
 import Driver.Common
 import Driver.CertShow
 import Rpki.Model.CertEnc
+import Rpki.Model.CrlEnc
+import Rpki.Model.CmsEnc
+import Rpki.Model.IdEnc
+import Rpki.Model.SigMsgEnc
 import Rpki.Model.Manifest
 import Rpki.Model.Crl
 import Rpki.Model.Roa
@@ -233,7 +237,42 @@ def handle (toks : List String) (impl : String) : Verdict :=
         let enc : Option String :=
           if kind = "cert" then
             match Rpki.CertDer.decodeCert b with
-            | some d => if Rpki.CertEnc.encodeTbs d = d.tbs then none else some "CertEnc.encodeTbs of the decoded fields differs from the to-be-signed octets"
+            | some d =>
+              if Rpki.CertEnc.encodeTbs d ≠ d.tbs then some "CertEnc.encodeTbs of the decoded fields differs from the to-be-signed octets"
+              else if Rpki.CertEnc.encodeCert d d.signature ≠ b then some "CertEnc.encodeCert of the decoded fields differs from the certificate's octets"
+              else none
+            | none => none
+          else if kind = "crl" then
+            -- `TbsCertList::encode_ref` / `Crl::encode_ref` (Model/CrlEnc.lean)
+            match Rpki.CrlDer.decodeCrl b with
+            | some d =>
+              if Rpki.CrlEnc.encodeTbsCrl d ≠ d.tbs then some "CrlEnc.encodeTbsCrl of the decoded fields differs from the to-be-signed octets"
+              else if Rpki.CrlEnc.encodeCrl d d.signature ≠ b then some "CrlEnc.encodeCrl of the decoded fields differs from the CRL's octets"
+              else none
+            | none => none
+          else if kind = "so" ∨ kind = "roa" ∨ kind = "aspa" ∨ kind = "mft" then
+            -- `SignedObject::encode_ref` (Model/CmsEnc.lean) around `Cert::encode_ref` of the EE certificate
+            match Rpki.CmsDer.decodeSigObj b with
+            | some o =>
+              if Rpki.CmsEnc.encodeSigObj o.contentType o.content (Rpki.CertEnc.encodeCert o.cert o.cert.signature) o.sid o.attrs o.signature ≠ b then
+                some "CmsEnc.encodeSigObj of the decoded parts differs from the signed object's octets"
+              else none
+            | none => none
+          else if kind = "idcert" then
+            -- `IdCert::encode_ref` (Model/IdEnc.lean)
+            match Rpki.SigMsgDer.decodeIdCert b with
+            | some d =>
+              if Rpki.IdEnc.encodeIdCert d d.signature ≠ b then some "IdEnc.encodeIdCert of the decoded fields differs from the identity certificate's octets"
+              else none
+            | none => none
+          else if kind = "sigmsg" then
+            -- `SignedMessage::encode_ref` (Model/SigMsgEnc.lean) around the identity certificate and the CRL
+            match Rpki.SigMsgDer.decodeSigMsg b with
+            | some m =>
+              if Rpki.SigMsgEnc.encodeSigMsg m.content (Rpki.IdEnc.encodeIdCert m.cert m.cert.signature)
+                  (Rpki.SigMsgEnc.encodeMsgCrl m.crl m.crl.signature) m.sid m.attrs m.signature ≠ b then
+                some "SigMsgEnc.encodeSigMsg of the decoded parts differs from the message's octets"
+              else none
             | none => none
           else none
         { mismatch := if m = lib then enc else some m,
